@@ -7,6 +7,7 @@ package example
 // "The example command never modifies a file that already exists": every file an example generator hands to
 // the renderer is marked SkipExist (File.Render leaves such a file alone when it exists: proved in package codegen).
 //@ func exampleCLIMain
+//@   params _ root svr
 //@   opt inline none
 //@   property C09
 //@   ensures* user.owned.file: result != nil ==> result.SkipExist
